@@ -515,7 +515,7 @@ def all_solvers(ctx):
     Ap_ = (Qp * dgl) @ Qp.T
     Ap_ = 0.5 * (Ap_ + Ap_.T)
     bp = prng.standard_normal(nprobe)
-    for name in ('cg', 'cr', 'steepest_descent', 'minimal_residual', 'cgnr', 'cgne', 'bicgstab'):
+    for name in ('cg', 'cr', 'steepest_descent', 'minimal_residual', 'cgnr', 'cgne', 'bicgstab', 'gmres_mgs', 'gmres_householder', 'fgmres'):
         fn = getattr(krylov, name)
         Asys = Ap_ if name not in ('cgnr', 'cgne') else (Qp * np.sqrt(dgl)) @ Qp.T
         case = dict(solver=name, probe='ill-conditioned cond=1e8 n=40 default_rng(0)', tol=1e-12, maxiter=1000)
@@ -533,7 +533,8 @@ def all_solvers(ctx):
             continue
         true = np.linalg.norm(bp - Asys @ x)
         nb = np.linalg.norm(bp)
-        if st == 0 and not true < 10 * 1e-12 * nb:
+        # (the GMRES family recomputes b - A x before it reports success: no slack there)
+        if st == 0 and not true < (10 if 'gmres' not in name else 1 + 1e-6) * 1e-12 * nb:
             ctx.fail(name + '/ill-conditioned/status0-criterion-not-met', 'status 0 but recomputed |b - A x| / |b| = %.3g for tol = 1e-12' % (true / nb), case)
         if res and not (0.1 * true <= res[-1] <= 10 * true) and true > 1e-13 * nb:
             ctx.fail(name + '/ill-conditioned/last-history-entry', 'residuals[-1] = %.3g but recomputed %.3g' % (res[-1], true), case)
